@@ -75,3 +75,70 @@ func windowBaseImpl() (interface {
 	s.Shutdown()
 	return baseImg{d}, setup, []string{root, d1, d2}
 }
+
+// getallocBase: a half-freed inode (a big file removed, the server stopped after the shrinker's first transaction) and an
+// empty directory D. After the restart the lowest free inode number is the half-freed one, so the next CREATE/MKDIR
+// allocates it, finds it still shrinking, aborts (window without locks), completes the shrink and retries.
+func getallocBase() (interface {
+	Clone() *vdiskT
+	Size() uint64
+}, []HEv, []string) {
+	d := vdisk.New(8000)
+	s, err := Start(d, true)
+	if err != nil {
+		panic(err)
+	}
+	var seq int64
+	idx := 0
+	var setup []HEv
+	root := RootFh()
+	do := func(c *Call) *Call {
+		c.I = idx
+		idx++
+		c.NLen, c.NLen2 = len(c.Name), len(c.Name2)
+		a := atomic.AddInt64(&seq, 1)
+		c.Exec(s.API)
+		b := atomic.AddInt64(&seq, 1)
+		setup = append(setup, HEv{Ev: "inv", Seq: a, Cl: 0, Call: c},
+			HEv{Ev: "ret", Seq: b, Cl: 0, Call: &Call{I: c.I, Data: []Run{}, RData: []Run{}, Ents: []Ent{}, Leaked: []int{}}})
+		return c
+	}
+	mk := func(proc, dir, name string) *Call {
+		c := NewCall(proc)
+		c.Fh, c.Name = dir, name
+		return do(c)
+	}
+	l := NewCall("FSINFO")
+	l.Fh = root
+	do(l)
+	p := NewCall("PATHCONF")
+	p.Fh = root
+	do(p)
+	big := mk("CREATE", root, "big").RFh // inode 2: the lowest
+	for k := 0; k < 3; k++ {
+		w := NewCall("WRITE")
+		w.Fh, w.Off, w.Cnt, w.DLen, w.Stable = big, k*300*4096, 300*4096, 300*4096, 2
+		w.Data = []Run{{300 * 4096, 60 + k}}
+		do(w)
+	}
+	d1 := mk("MKDIR", root, "D").RFh
+	mk("CREATE", root, "other")
+	mk("REMOVE", root, "big")
+	s.N.Crash() // stops the background shrinker after its current transaction
+	s2, err := Start(d, true)
+	if err != nil {
+		panic(err)
+	}
+	setup = append(setup, HEv{Ev: "restart"})
+	half := false
+	for _, in := range TakeSnap(s2, "x", false).Inodes {
+		if in.Kind == 0 && in.Ssz > 0 && len(in.Data)+len(in.Ind) > 0 {
+			half = true
+		}
+	}
+	s2.Shutdown()
+	if !half {
+		fmt.Println("note: getallocBase: the shrinker had already finished; the base has no half-freed inode")
+	}
+	return baseImg{d}, setup, []string{root, d1}
+}
